@@ -112,11 +112,15 @@ def gen_universe(rng, tier: str = "quick") -> dict:
         tapes["w.fail.set"] = [rng.choice([0, 0, 0, 1, 2]) for _ in range(rng.randint(1, 6))]
     if rng.random() < 0.15:
         tapes["w.fail.pres"] = [rng.choice([0, 1, 2]) for _ in range(rng.randint(1, 3))]
+    if rng.random() < 0.12:
+        tapes["w.fail.idresp"] = [rng.choice([0, 1, 2]) for _ in range(rng.randint(1, 3))]
+    if rng.random() < 0.1:
+        tapes["w.fail.other"] = [rng.choice([0, 0, 1, 2]) for _ in range(rng.randint(1, 4))]
     if rng.random() < 0.3:
         tapes["w.lat"] = [rng.choice([0, 1, 2]) for _ in range(rng.randint(1, 8))]
     scn = {"kind": "universe", "cfg": cfg, "ops": ops, "tapes": tapes}
     r = rng.random()
-    if r < 0.12 and not tapes.get("w.fail.set") and not tapes.get("w.fail.pres"):
+    if r < 0.12 and not any(k.startswith("w.fail") for k in tapes):
         scn["cfg"]["persist"] = True
         k = rng.randint(0, len(ops))
         if rng.random() < 0.5:
